@@ -147,8 +147,15 @@ func cmdCheck(args []string) int {
 			final = c
 		} else {
 			// merge obligations of the extra tag set that differ: prefix construct with the tag set
-			for _, o := range c.Obs {
+			have := map[string]bool{}
+			for _, o := range final.Obs {
 				if o.Verdict != Discharged {
+					have[o.Rule+"|"+o.Construct] = true
+				}
+			}
+			for _, o := range c.Obs {
+				// the same (rule, construct) already reported under the default tags is one finding, not two
+				if o.Verdict != Discharged && !have[o.Rule+"|"+o.Construct] {
 					o.Construct = "[tags=" + tg + "] " + o.Construct
 					final.Obs = append(final.Obs, o)
 				}
@@ -190,6 +197,9 @@ func (c *Ctx) finishNoEvidence(verifDir string) int {
 		}
 	}
 	for _, o := range c.Obs {
+		if os.Getenv("VERIF_LIST") != "" && !o.Control {
+			fmt.Printf("  . %s %s %s at %s: %s\n", o.Verdict, o.Rule, o.Construct, o.Pos, o.Detail)
+		}
 		if o.Control || o.Verdict == Discharged || kmap[o.Rule+"|"+o.Construct] {
 			continue
 		}
